@@ -1,5 +1,279 @@
 /-
-  Props/C13.lean — property theorems for C13 (stub; to be filled in).
+  Props/C13.lean — C13: equivalent declaration syntaxes produce behaviourally identical classes.
+
+  Statement (full strength, `C13_statement`): for any two class bodies that declare the same fields,
+  each field in any of its documented spellings (relation `ClassSame` / `FieldSame` / `SameMeaning`:
+  annotation vs assignment, field class vs instance, builtin / typing / PEP-585 / PEP-604 vs typedpy
+  fields at every nesting depth, `= v` vs `default=v`, `Optional[T]` vs `AnyOf[T, None]` + `_optional`),
+  with or without `from __future__ import annotations`, the class statements have the same outcome
+  (same exception class, or classes with the same fields, `_required`, defaults) and the classes
+  accept / reject / normalise every keyword-argument list identically.
+
+  The code violates the full statement (seven known findings, each with a kernel-checked
+  counterexample below).  Proved: `statement_partial` — the statement on the decidable region
+  `classSupported`, which excludes exactly the finding regions, the places where `typing` itself
+  rewrites the expression (directly nested / duplicate union members) and nothing else; it follows
+  from `elabField_meaning` (model of the code = documented meaning, by structural induction over
+  spellings, `Lemmas/Elab.ev_good`) and `sameMeaning_denote` (induction on the derivation).
+  All theorems are about `Sem/Elaborate` instantiated with `Pinned.typeMap`; `Props/C13Tie.lean`
+  proves that this is the table extracted from the current working tree.
 -/
+import TypedpyModel.Lemmas.Elab
 namespace Typedpy.C13
+open Typedpy Typedpy.Elab
+
+/-- the pinned table (equal to the regenerated one by `C13Tie.typeMap_pinned`) -/
+abbrev tm : TypeMap := Pinned.typeMap
+
+/-! ### the table agrees with the model's derived functions on every modelled atom -/
+
+def headOfDecl : FieldDecl → Option Head
+  | .integer _ => some .integer | .string _ _ _ => some .string | .float _ => some .float
+  | .boolean => some .boolean | .anything => some .anything
+  | .seqAny .list _ => some .array | .seqAny .deque _ => some .deque
+  | .setAny false _ => some .set | .setAny true _ => some .immSet
+  | .mapAny _ => some .map | .noneF => some (.other "NoneField")
+  | _ => none
+
+def objOfAtom : Atom → Obj
+  | .noneType => .noneTy
+  | a => .ty a
+
+def modelled : Atom → Bool
+  | .date | .datetime | .time | .tuple | .tTuple | .tOptional => false
+  | _ => true
+
+def probeAgrees (a : Atom) (r : R (Option FieldDecl)) (p : Probe) : Bool :=
+  match p with
+  | .cls h => !tm.generic a && tm.cbt a == some h
+  | .inst h => (match r with | .ok (some d) => headOfDecl d == some h | _ => false)
+  | .none => (match r with | .ok none => true | _ => false)
+  | .err _ => (match r with | .error _ => true | _ => false)
+
+/-- `get_typing_lib_info`, `Field[·]` and `_or_fields(Integer, ·)` of the model against the probed columns -/
+def rowConsistent (r : TMRow) : Bool :=
+  probeAgrees r.atom (gtli tm (objOfAtom r.atom)) r.gtli
+  && probeAgrees r.atom (someDecl (getItem tm (objOfAtom r.atom))) r.item
+  && probeAgrees r.atom
+      (bindE (orFields tm (.fcls .integer) (objOfAtom r.atom)) fun o =>
+        match o with
+        | .finst (.anyOf [_, d]) => .ok (some d)
+        | _ => .error (.other "shape")) r.orRight
+
+/-- On every modelled atom of the vocabulary the model's `gtli` / `getItem` / `orFields` return what the
+    real `get_typing_lib_info` / `FieldMeta.__getitem__` / `_or_fields` returned when probed. -/
+theorem typeMap_columns_consistent : (tm.filter (fun r => modelled r.atom)).all rowConsistent = true := by
+  decide
+
+/-! ### elaboration = documented meaning; equivalent spellings elaborate identically -/
+
+/-- the Field a type expression becomes when it is used as a field type (argument of `Array[…]`,
+    annotation of a field expression, …) -/
+def elaborate (tm : TypeMap) (s : Sp) : R FieldDecl := bindE (ev tm s) (getItem tm)
+
+/-- the Field an annotation becomes through `get_typing_lib_info` -/
+def elaborateAnn (tm : TypeMap) (s : Sp) : R (Option FieldDecl) := bindE (ev tm s) (gtli tm)
+
+/-- Equivalent spellings have the same documented meaning (induction on the derivation). -/
+theorem sameMeaning_denote {s t : Sp} (h : SameMeaning s t) : denote s = denote t :=
+  Elab.sameMeaning_denote h
+
+/-- Every supported spelling, at any nesting depth, elaborates to its documented meaning — both through
+    `FieldMeta.__getitem__` and through `get_typing_lib_info`. -/
+theorem elaborate_meaning (s : Sp) (h : supported tm s = true) :
+    elaborate tm s = .ok (denote s) ∧ elaborateAnn tm s = .ok (some (denote s)) := by
+  obtain ⟨o, hev, g⟩ := ev_good s h
+  exact ⟨by simp [elaborate, hev, getItem_of_gtli g.gt], by simp [elaborateAnn, hev, g.gt]⟩
+
+/-- `SameMeaning s₁ s₂ → elaborate tm s₁ = elaborate tm s₂` on the supported region. -/
+theorem elaborate_equiv {s₁ s₂ : Sp} (h : SameMeaning s₁ s₂) (h₁ : supported tm s₁ = true)
+    (h₂ : supported tm s₂ = true) :
+    elaborate tm s₁ = elaborate tm s₂ ∧ elaborateAnn tm s₁ = elaborateAnn tm s₂ := by
+  rw [(elaborate_meaning s₁ h₁).1, (elaborate_meaning s₂ h₂).1, (elaborate_meaning s₁ h₁).2,
+    (elaborate_meaning s₂ h₂).2, sameMeaning_denote h]
+  exact ⟨rfl, rfl⟩
+
+/-- Field level: the model of `StructMeta.__new__` on one declaration yields the documented field,
+    required flag and default (or the documented rejection of an invalid default). -/
+theorem elabField_meaning (O : Oracles) (future : Bool) (fs : FieldSp)
+    (h : fieldSupported O tm future fs = true) : elabField O tm future fs = fieldMeaning O fs :=
+  elabField_meaning' O future fs h
+
+/-- The same field in two spellings (annotation / assignment, `= v` / `default=v`, `Optional` /
+    `AnyOf[…, None]` + `_optional`, any equivalent type expression), each with or without the future
+    import, elaborates identically. -/
+theorem elabField_equiv (O : Oracles) (f₁ f₂ : Bool) {a b : FieldSp} (h : FieldSame a b)
+    (ha : fieldSupported O tm f₁ a = true) (hb : fieldSupported O tm f₂ b = true) :
+    elabField O tm f₁ a = elabField O tm f₂ b := by
+  rw [elabField_meaning O f₁ a ha, elabField_meaning O f₂ b hb, fieldMeaning_same O h]
+
+/-- Class level: any mix of equivalent spellings across the fields of one class gives the same class
+    statement outcome. -/
+theorem elabClass_equiv (O : Oracles) {c₁ c₂ : ClassSp} (h : ClassSame c₁.fields c₂.fields)
+    (h₁ : classSupported O tm c₁ = true) (h₂ : classSupported O tm c₂ = true) :
+    elabClass O tm c₁ = elabClass O tm c₂ := by
+  simp only [elabClass, elabFields_same O c₁.future c₂.future h h₁ h₂]
+
+/-- Corollary: same field set (with the same Field per name), same `_required`, same defaults. -/
+theorem same_fields_and_required (O : Oracles) {c₁ c₂ : ClassSp} (h : ClassSame c₁.fields c₂.fields)
+    (h₁ : classSupported O tm c₁ = true) (h₂ : classSupported O tm c₂ = true)
+    {o₁ o₂ : ClassOpts} {fs₁ fs₂ : List (String × FieldDecl)} {ds₁ ds₂ : List (String × PyVal)}
+    (e₁ : elabClass O tm c₁ = .ok (.struct o₁ fs₁ ds₁)) (e₂ : elabClass O tm c₂ = .ok (.struct o₂ fs₂ ds₂)) :
+    fs₁ = fs₂ ∧ o₁.required = o₂.required ∧ ds₁ = ds₂ := by
+  rw [elabClass_equiv O h h₁ h₂, e₂] at e₁
+  injection e₁ with e
+  injection e with eo ef ed
+  subst eo ef ed
+  exact ⟨rfl, rfl, rfl⟩
+
+/-- everything observable about a class statement and the class it creates: the exception class of the
+    definition, else accept / reject (with exception class) / stored normal form of `K(**kw)`
+    (`Sem/Validate.construct` is a function of the class declaration) -/
+def classBehaviour (O : Oracles) (c : ClassSp) (kw : List (String × PyVal)) : R PyVal :=
+  bindE (elabClass O tm c) fun cls => construct O cls kw
+
+/-- Corollary: equivalent class bodies accept, reject (same exception class) and normalise every
+    keyword-argument list identically. -/
+theorem same_behaviour (O : Oracles) {c₁ c₂ : ClassSp} (h : ClassSame c₁.fields c₂.fields)
+    (h₁ : classSupported O tm c₁ = true) (h₂ : classSupported O tm c₂ = true)
+    (kw : List (String × PyVal)) : classBehaviour O c₁ kw = classBehaviour O c₂ kw := by
+  simp only [classBehaviour, elabClass_equiv O h h₁ h₂]
+
+/-! ### the full statement, and what is proved of it -/
+
+def fieldNames (r : R FieldDecl) : Option (List String × List String) :=
+  match r with
+  | .ok (.struct o fs _) => some (fs.map (·.1), o.required)
+  | _ => none
+
+/-- C13 at full strength, over the documented spellings -/
+def C13_statement : Prop :=
+  ∀ (O : Oracles) (c₁ c₂ : ClassSp), ClassSame c₁.fields c₂.fields →
+    c₁.fields.all documentedField = true → c₂.fields.all documentedField = true →
+    fieldNames (elabClass O tm c₁) = fieldNames (elabClass O tm c₂)
+    ∧ ∀ kw, classBehaviour O c₁ kw = classBehaviour O c₂ kw
+
+/-- What holds: the statement restricted to the supported region (`classSupported` excludes exactly
+    the known-finding regions and typing's own flattening / de-duplication of unions). -/
+theorem statement_partial (O : Oracles) (c₁ c₂ : ClassSp) (h : ClassSame c₁.fields c₂.fields)
+    (h₁ : classSupported O tm c₁ = true) (h₂ : classSupported O tm c₂ = true) :
+    fieldNames (elabClass O tm c₁) = fieldNames (elabClass O tm c₂)
+    ∧ ∀ kw, classBehaviour O c₁ kw = classBehaviour O c₂ kw :=
+  ⟨by rw [elabClass_equiv O h h₁ h₂], same_behaviour O h h₁ h₂⟩
+
+/-! ### counterexamples (one per known finding), checked by the kernel on the model -/
+
+def noRe : Oracles := ⟨fun _ _ => false⟩
+def fInt : Sp := .fcls .int
+def fStr : Sp := .fcls .str
+def annF (ty : Sp) (dflt : DefaultSp := .none) (inOpt : Bool := false) : FieldSp :=
+  { name := "a", mode := .ann, ty := ty, dflt := dflt, inOptional := inOpt }
+def anyIntStr : FieldDecl := .anyOf [.integer {}, .string none none none]
+
+/-- finding `field-dropped:pep604-plain-union` — `a: int | str` declares no field at all, while
+    `a: AnyOf[Integer, String]` (and `Union[int, str]`) declares a required AnyOf field. -/
+theorem counterexample_pep604_dropped :
+    SameMeaning (.pipe (.builtin .int) (.builtin .str)) (.anyOf fInt fStr)
+    ∧ elabField noRe tm false (annF (.pipe (.builtin .int) (.builtin .str))) = .ok .dropped
+    ∧ elabField noRe tm false (annF (.anyOf fInt fStr)) = .ok (.field anyIntStr true none)
+    ∧ elabField noRe tm false (annF (.union (.builtin .int) (.builtin .str))) = .ok (.field anyIntStr true none) :=
+  ⟨SameMeaning.alt .pipe .anyOf (SameMeaning.scalar .builtin .cls .int) (SameMeaning.scalar .builtin .cls .str),
+   rfl, rfl, rfl⟩
+
+/-- finding `definition-error:pep604-plain-union-nested` — `a: list[int | str]` raises TypeError at
+    class definition, `a: list[Union[int, str]]` declares `Array[AnyOf[Integer, String]]`. -/
+theorem counterexample_pep604_nested :
+    SameMeaning (.pep585 .list (.pipe (.builtin .int) (.builtin .str))) (.pep585 .list (.union (.builtin .int) (.builtin .str)))
+    ∧ elabField noRe tm false (annF (.pep585 .list (.pipe (.builtin .int) (.builtin .str)))) = .error .typeErr
+    ∧ elabField noRe tm false (annF (.pep585 .list (.union (.builtin .int) (.builtin .str))))
+        = .ok (.field (.seqOf .list anyIntStr {}) true none) :=
+  ⟨SameMeaning.coll .pep585 .pep585 .list
+     (SameMeaning.alt .pipe .union (SameMeaning.scalar .builtin .builtin .int) (SameMeaning.scalar .builtin .builtin .str)),
+   rfl, rfl⟩
+
+/-- finding `definition-error:field-pipe-none` — `a: Integer | None` raises TypeError at class
+    definition, `a: AnyOf[Integer, None]` (listed in `_optional`) and `a: Optional[int]` work. -/
+theorem counterexample_field_pipe_none :
+    SameMeaning (.pipe fInt .noneLit) (.anyOf fInt .noneLit)
+    ∧ elabField noRe tm false (annF (.pipe fInt .noneLit) .none true) = .error .typeErr
+    ∧ elabField noRe tm false (annF (.anyOf fInt .noneLit) .none true)
+        = .ok (.field (.anyOf [.integer {}, .noneF]) false none)
+    ∧ elabField noRe tm false (annF (.optional (.builtin .int)))
+        = .ok (.field (.anyOf [.integer {}, .noneF]) false none) :=
+  ⟨SameMeaning.alt .pipe .anyOf (SameMeaning.scalar .cls .cls .int) SameMeaning.none, rfl, rfl, rfl⟩
+
+/-- finding `definition-error:field-pipe-nonconvertible` — `a: Integer | list[int]` raises TypeError
+    (`_or_fields` only consults `convert_basic_types`), `a: AnyOf[Integer, list[int]]` works. -/
+theorem counterexample_field_pipe_generic :
+    SameMeaning (.pipe fInt (.pep585 .list (.builtin .int))) (.anyOf fInt (.pep585 .list (.builtin .int)))
+    ∧ elabField noRe tm false (annF (.pipe fInt (.pep585 .list (.builtin .int)))) = .error .typeErr
+    ∧ elabField noRe tm false (annF (.anyOf fInt (.pep585 .list (.builtin .int))))
+        = .ok (.field (.anyOf [.integer {}, .seqOf .list (.integer {}) {}]) true none) :=
+  ⟨SameMeaning.alt .pipe .anyOf (SameMeaning.scalar .cls .cls .int)
+     (SameMeaning.coll .pep585 .pep585 .list (SameMeaning.scalar .builtin .builtin .int)), rfl, rfl⟩
+
+/-- `Array[Map[String, Array[Map[String, Array[Integer]]]]]` — 54 characters -/
+def longSp : Sp := .sub .list (.mapSub fStr (.sub .list (.mapSub fStr (.sub .list fInt))))
+
+/-- finding `field-dropped:future-annotation-50` — under `from __future__ import annotations` an
+    annotation of 50 or more characters is never evaluated: the very same declaration declares a field
+    without the import and nothing with it. -/
+theorem counterexample_future_50 :
+    annLen longSp = 54
+    ∧ elabField noRe tm true (annF longSp) = .ok .dropped
+    ∧ elabField noRe tm false (annF longSp)
+        = .ok (.field (.seqOf .list (.mapOf (.string none none none)
+            (.seqOf .list (.mapOf (.string none none none) (.seqOf .list (.integer {}) {}) {}) {}) {}) {}) true none) :=
+  ⟨rfl, rfl, rfl⟩
+
+/-- finding `definition-error:falsy-default-kw` — `a: String = 0` is rejected at class definition
+    (TypeError: invalid default), `a: String(default=0)` is accepted with the invalid default. -/
+theorem counterexample_falsy_default_kw :
+    FieldSame (annF fStr (.eq (.int 0) 1)) (annF (.finst .str) (.kw (.int 0) 1))
+    ∧ elabField noRe tm false (annF fStr (.eq (.int 0) 1)) = .error .typeErr
+    ∧ elabField noRe tm false (annF (.finst .str) (.kw (.int 0) 1))
+        = .ok (.field (.string none none none) false (some (.int 0))) :=
+  ⟨⟨rfl, SameMeaning.scalar .cls .inst .str, rfl, rfl⟩, rfl, rfl⟩
+
+/-- finding `error-class-differs:typing-union-duplicate` — `typing` collapses `Union[int, int]` to
+    `int`, so the class rejects `'x'` with TypeError, while `AnyOf[Integer, Integer]` rejects it with
+    ValueError. -/
+theorem counterexample_union_duplicate :
+    SameMeaning (.union (.builtin .int) (.builtin .int)) (.anyOf fInt fInt)
+    ∧ elabField noRe tm false (annF (.union (.builtin .int) (.builtin .int))) = .ok (.field (.integer {}) true none)
+    ∧ elabField noRe tm false (annF (.anyOf fInt fInt)) = .ok (.field (.anyOf [.integer {}, .integer {}]) true none)
+    ∧ validate noRe (.integer {}) (.str "x") = .error .typeErr
+    ∧ validate noRe (.anyOf [.integer {}, .integer {}]) (.str "x") = .error .valueErr :=
+  ⟨SameMeaning.alt .union .anyOf (SameMeaning.scalar .builtin .cls .int) (SameMeaning.scalar .builtin .cls .int),
+   rfl, rfl, rfl, rfl⟩
+
+/-- The full statement is false of the model (hence, by correspondence, of the code): the PEP-604
+    class has no field `a`. -/
+theorem statement_false : ¬ C13_statement := by
+  intro h
+  have := (h noRe ⟨false, [annF (.pipe (.builtin .int) (.builtin .str))]⟩ ⟨false, [annF (.anyOf fInt fStr)]⟩
+    (ClassSame.cons ⟨rfl, counterexample_pep604_dropped.1, rfl, rfl⟩ ClassSame.nil) rfl rfl).1
+  revert this
+  decide
+
+/-! ### non-vacuity -/
+
+/-- `a: Optional[list[dict[str, int]]] = …` spelled with builtins / typing under the future import, and
+    `a = AnyOf[Array[Map[String, Integer]], None]` + `_optional` as a plain assignment: both are in the
+    supported region, are `FieldSame`, and elaborate to the same optional nested field. -/
+theorem equiv_example :
+    let s₁ : Sp := .optional (.pep585 .list (.dict585 (.builtin .str) (.builtin .int)))
+    let s₂ : Sp := .anyOf (.sub .list (.mapSub fStr fInt)) .noneLit
+    let a : FieldSp := { name := "a", mode := .ann, ty := s₁ }
+    let b : FieldSp := { name := "a", mode := .assign, ty := s₂, inOptional := true }
+    FieldSame a b
+    ∧ fieldSupported noRe tm true a = true ∧ fieldSupported noRe tm false b = true
+    ∧ elabField noRe tm true a = elabField noRe tm false b
+    ∧ elabField noRe tm true a
+        = .ok (.field (.anyOf [.seqOf .list (.mapOf (.string none none none) (.integer {}) {}) {}, .noneF]) false none) := by
+  refine ⟨⟨rfl, ?_, rfl, rfl⟩, rfl, rfl, rfl, rfl⟩
+  exact SameMeaning.optionalAlt .anyOf
+    (SameMeaning.coll .pep585 .sub .list
+      (SameMeaning.dict .pep585 .sub (SameMeaning.scalar .builtin .cls .str) (SameMeaning.scalar .builtin .cls .int)))
+
 end Typedpy.C13
